@@ -64,11 +64,12 @@ def _expand(job):
         k0 = system.key(ctx)
         if expect_key is not None and k0 != expect_key:
             raise RuntimeError(f'replay divergence (nondeterminism not owned): {hist!r}')
+        spare = None                 # a context known to be in exactly the state of `hist` (see below)
         for op, cost in system.enabled(ctx):
             if devs + cost > K:
                 counts['skipped_over_budget'] = counts.get('skipped_over_budget', 0) + 1
                 continue
-            ctx2 = replay(system, hist)
+            ctx2, spare = (spare, None) if spare is not None else (replay(system, hist), None)
             try:
                 system.step(ctx2, op, True)
                 system.invariant(ctx2)
@@ -81,7 +82,13 @@ def _expand(job):
             name = 'op:' + str(op[0])
             counts[name] = counts.get(name, 0) + 1
             outcomes.add((op[0], system.outcome(ctx2, op)))
-            out.append((hist + (op,), devs + cost, system.key(ctx2)))
+            k2 = system.key(ctx2)
+            out.append((hist + (op,), devs + cost, k2))
+            if k2 == k0 and getattr(system, 'reuse_unchanged', False):
+                # the operation left the complete canonical state unchanged (a rejected or vacuous call):
+                # the context is still an exact copy of the state of `hist`, no need to replay for the next op
+                spare = ctx2
+                counts['replays_saved'] = counts.get('replays_saved', 0) + 1
     return out, viols, counts, outcomes
 
 
